@@ -1,0 +1,95 @@
+//go:build verif
+
+package asp
+
+// Verification hook for property C21 (glob). Add-only; compiled only with -tags verif. Nothing here changes
+// behaviour: it interprets a BUILD file in process with the build file names configured the way
+// ReadConfigFiles configures them, and reads back the lists the file's glob() calls produced.
+
+import (
+	"strings"
+	"sync"
+
+	"github.com/thought-machine/please/rules"
+	"github.com/thought-machine/please/src/core"
+)
+
+var verifC21Parsers = map[string]*Parser{}
+var verifC21Mutex sync.Mutex
+
+func verifC21Parser(buildFileNames []string) (*Parser, error) {
+	verifC21Mutex.Lock()
+	defer verifC21Mutex.Unlock()
+	key := strings.Join(buildFileNames, "\x00")
+	if p, ok := verifC21Parsers[key]; ok {
+		return p, nil
+	}
+	state := core.NewDefaultBuildState()
+	state.Config.Parse.BuildFileName = append([]string{}, buildFileNames...)
+	if state.Config.Parse.NumThreads < 4 {
+		state.Config.Parse.NumThreads = 4
+	}
+	p := NewParser(state)
+	src, err := rules.ReadAsset("builtins.build_defs")
+	if err != nil {
+		return nil, err
+	}
+	if err := p.LoadBuiltins("builtins.build_defs", src); err != nil {
+		return nil, err
+	}
+	verifC21Parsers[key] = p
+	return p, nil
+}
+
+// VerifC21Glob interprets src as the BUILD file `filename` (e.g. "pkg/BUILD") of package pkgName, in a build state
+// whose Parse.BuildFileName is buildFileNames, relative to the current directory (the repository root), and returns
+// every global of the file that is bound to a list of strings (what its glob() calls returned). errText is the
+// innermost error message when the file could not be parsed or interpreted.
+func VerifC21Glob(buildFileNames []string, pkgName, filename, src string) (lists map[string][]string, errText string) {
+	p, err := verifC21Parser(buildFileNames)
+	if err != nil {
+		return nil, err.Error()
+	}
+	p.limiter.Acquire()
+	defer p.limiter.Release()
+	stmts, err := p.ParseData([]byte(src), filename)
+	if err != nil {
+		return nil, "parse: " + verifC21Short(err)
+	}
+	pkg := core.NewPackage(pkgName)
+	pkg.Filename = filename
+	s, err := p.interpreter.interpretAll(pkg, nil, nil, 0, stmts)
+	if err != nil {
+		return nil, verifC21Short(err)
+	}
+	lists = map[string][]string{}
+	for k, v := range s.locals {
+		var l pyList
+		switch x := v.(type) {
+		case pyList:
+			l = x
+		case pyFrozenList:
+			l = x.pyList
+		default:
+			continue
+		}
+		out := make([]string, 0, len(l))
+		ok := true
+		for _, x := range l {
+			sx, isStr := x.(pyString)
+			ok = ok && isStr
+			out = append(out, string(sx))
+		}
+		if ok {
+			lists[k] = out
+		}
+	}
+	return lists, ""
+}
+
+func verifC21Short(err error) string {
+	if st, ok := err.(*errorStack); ok {
+		return st.err.Error()
+	}
+	return err.Error()
+}
